@@ -108,6 +108,7 @@ func resumeThread(L *LState, th *LState, raise bool) int {
 		cf.NArgs = nargs
 		th.initCallFrame(cf)
 		th.Panic = panicWithoutTraceback
+		th.started = true
 	} else {
 		nargs := L.GetTop() - 1
 		base := th.reg.Top()
